@@ -145,13 +145,20 @@ func (g *Gen) genRoundTripHistory() {
 	// a concatenation of encodings decodes to the merge of the encoded sketches
 	sg.line("K 5 1 %s%s", sg.storeSpec(allKinds), x)
 	sg.fillSketch(5, r.Range(0, 20), 60)
-	bs5, ok5 := sg.bytesOf(5, r.Bool(50))
+	omit5 := r.Bool(50)
+	bs5, ok5 := sg.bytesOf(5, omit5)
 	if ok5 {
 		cat := append(append([]byte{}, bs...), bs5...)
 		if r.Bool(30) {
 			cat = append(cat, bs...)
 		}
-		sg.dec(6, "1", 1, sg.storeSpec(nonCollapsing), exact, cat)
+		// the caller supplies no mapping when some part of the concatenation embeds it — wherever that
+		// part stands (blocks may come in any order)
+		prov6 := "1"
+		if (!omit || !omit5) && r.Bool(60) {
+			prov6 = "-"
+		}
+		sg.dec(6, prov6, 1, sg.storeSpec(nonCollapsing), exact, cat)
 		sg.ensureValues(6)
 		sg.obs(6)
 	}
